@@ -204,6 +204,10 @@ def list_over_list(I, st, node, g, src):
     ev = vals[0]
     conds = [I.truthy(st, c) for c in vals[1:]]
     cond = z3.And(*conds) if conds else TRUE
+    if ev.ty == "Coro":
+        # [coro_fn(..x..) for x in lst]: a homogeneous batch of coroutines (consumed by asyncio.gather)
+        fi_, argmap_ = ev.term
+        return Val("CoroList", (fi_, argmap_, z3.And(0 <= i, i < ln, cond), [i], src))
     et = strip_opt(ev.ty)
     cls = "List[%s]" % ty_str(et)
     REG.parse(cls)
